@@ -18,16 +18,30 @@ func init() {
 			if tier == "thorough" {
 				hi = 9
 			}
-			return rangeJobs("C17Clean", "n", 0, hi)
+			js := rangeJobs("C17Clean", "n", 0, hi)
+			w := 3
+			totals := []int{126, 128, 131}
+			if tier == "thorough" {
+				w = 5
+				totals = []int{120, 126, 127, 128, 129, 135}
+			}
+			for _, total := range totals {
+				for place := 0; place < 3; place++ {
+					for filler := 0; filler < 3; filler++ {
+						js = append(js, &Job{Harness: "C17Long", Params: map[string]int{"total": total, "w": w, "place": place, "filler": filler}})
+					}
+				}
+			}
+			return js
 		},
 		Bounds: func(tier string) string {
 			hi := 7
 			if tier == "thorough" {
 				hi = 9
 			}
-			return fmt.Sprintf("every input string of 0..%d bytes over the full byte alphabet (256^n each), by solver", hi)
+			return fmt.Sprintf("every input string of 0..%d bytes over the full byte alphabet (256^n each), by solver; long inputs of 120..135 bytes (three concrete fillers) with a fully symbolic window of 3 (quick) / 5 (thorough) bytes at the start, middle or end, crossing the 128-byte stack buffer", hi)
 		},
-		RequiredCovers: []string{"trailing-slash-in"},
+		RequiredCovers: []string{"trailing-slash-in", "input longer than the stack buffer"},
 	}
 }
 
@@ -50,12 +64,15 @@ func init() {
 					js = append(js, &Job{Harness: "C10Parse", Params: map[string]int{"n": n, "limits": lim}})
 				}
 			}
+			for n := 1; n <= c10n(tier); n++ {
+				js = append(js, &Job{Harness: "C10Round", Params: map[string]int{"n": n}})
+			}
 			return js
 		},
 		Bounds: func(tier string) string {
-			return fmt.Sprintf("C10(a): every pattern string of 0..%d bytes over the full byte alphabet with default limits, 0..%d bytes with (maxParams,maxKeyBytes) in {(1,1),(2,3)}", c10n(tier), c10n(tier)-1)
+			return fmt.Sprintf("C10(a): every pattern string of 0..%d bytes over the full byte alphabet with default limits, 0..%d bytes with (maxParams,maxKeyBytes) in {(1,1),(2,3)}; C10(b): every accepted pattern of 1..%d bytes as the only route, with every substitution of 1..2 bytes per named parameter and 1..3 bytes per catch-all (full alphabet minus the delimiters)", c10n(tier), c10n(tier)-1, c10n(tier))
 		},
-		RequiredCovers: []string{"accepted", "rejected", "accepted with hostname", "accepted with wildcard", "dont-care region"},
+		RequiredCovers: []string{"accepted", "rejected", "accepted with hostname", "accepted with wildcard", "dont-care region", "round trip with wildcards", "round trip with hostname"},
 		Assumptions: []string{
 			"grammar don't-care regions (neither acceptance nor rejection asserted): '_' in a host label, an all-numeric last label beside non-numeric ones, '-' directly before a host {param}",
 			"fmt.Errorf modelled (message opaque, %w operands kept); errors.Is modelled by walking Unwrap",
